@@ -210,7 +210,7 @@ def fd_check(kind, p, box, h=1e-6):
 
 FAMILIES = ["nonbonded", "bond", "angle", "dihedral", "mixed", "mixed-angle",
             "dihedral-periodic", "mixed-order", "mixed-order", "small-box",
-            "small-box"]
+            "small-box", "irregular-grid", "irregular-grid"]
 
 
 def rand_unit(r):
@@ -244,6 +244,11 @@ class FGen:
     def ch(self, seq):
         return seq[self.r.randint(len(seq))]
 
+    def remainder(self, st):
+        """0.1..0.9 of a step, as a short decimal, never 0 or the step"""
+        rem = round(self.r.uniform(0.1, 0.9) * st, 4)
+        return rem if 0 < rem < st else round(0.5 * st, 4)
+
     def make(self, family):
         r = self.r
         c = {"family": family}
@@ -268,6 +273,23 @@ class FGen:
             has_nb = sub == "mixed" and r.rand() < 0.3
             chain = int(self.ch([4, 5]))
             nper = 0
+        elif family == "irregular-grid":
+            # fit grids whose step does not divide max - min: the last spline
+            # interval is longer than the others (nodes min + i*step, last
+            # node moved to max); periodic dihedrals alone and mixed, and the
+            # natural-boundary kinds
+            c["sub"] = sub = self.ch(["periodic-dihedral", "periodic-dihedral",
+                                      "bond", "angle", "nonbonded", "mixed",
+                                      "mixed"])
+            mix = [k_ for k_ in ("bond", "angle") if r.rand() < 0.6]
+            kinds = {"periodic-dihedral": ["dihedral"], "bond": ["bond"],
+                     "angle": ["angle"], "nonbonded": [],
+                     "mixed": ["dihedral"] + (mix or ["bond"])}[sub]
+            has_nb = sub == "nonbonded" or (sub == "mixed" and r.rand() < 0.4)
+            nper = 1 if "dihedral" in kinds else 0
+            chain = {"periodic-dihedral": int(self.ch([4, 5])),
+                     "bond": int(self.ch([2, 3, 4])), "angle": int(self.ch([3, 4])),
+                     "nonbonded": 1, "mixed": 4}[sub]
         elif family == "mixed-order":
             # 2..4 interactions in random order, 0..2 of them periodic
             # dihedrals at any position of the options file
@@ -295,12 +317,15 @@ class FGen:
                      "mixed-angle": 4 if "dihedral" in kinds else 3}[family]
             nper = 1 if family == "dihedral-periodic" else 0
         target = int(r.randint(20, 81))
-        if family == "mixed-order":
+        irregular = family == "irregular-grid"
+        if family == "mixed-order" or irregular:
             target = int(r.randint(60, 101))     # enough samples per interval
+        if irregular and nper:
+            target = int(r.randint(80, 121))
         nmol = max(2, target // chain)
         if small:
             nmol = int(r.randint(3, 7))
-        if family == "nonbonded":
+        if family == "nonbonded" or (irregular and chain == 1):
             nmol = max(20, nmol)
         c["chain"], c["nmol"] = chain, nmol
         nbeads = nmol * chain
@@ -333,12 +358,17 @@ class FGen:
             kmax = int(math.floor((min(half_nb, 1.2) - lo) / st + 1e-9))
             k = int(r.randint(3, max(4, min(kmax, 10)) + 1))
             k = min(k, kmax)
+            nb_rem = 0.0
+            if irregular and r.rand() < 0.7:
+                k = max(2, min(k, kmax - 1))
+                nb_rem = self.remainder(st)
             cross = family == "nonbonded" and r.rand() < 0.3
             wild = (not cross) and r.rand() < 0.3
             inter.append({"class": "pair", "name": "NB",
                           "type1": "*" if wild else "A",
                           "type2": "*" if wild else ("B" if cross else "A"),
-                          "min": lo, "max": round(lo + k * st, 6), "step": st})
+                          "min": lo, "max": round(lo + k * st + nb_rem, 6),
+                          "step": st})
             c["cross"] = cross
         ndone = {}
         perflags = [True] * nper + [False] * (kinds.count("dihedral") - nper)
@@ -372,6 +402,13 @@ class FGen:
                 k = int(r.randint(4, 9 if family == "mixed-order" else 13))
                 lo, mx = -3.141592654, 3.141592654
                 st = round((mx - lo) / k, 9)
+                if irregular and r.rand() < 0.75:
+                    # round / random steps that do not divide 2 pi
+                    st = self.ch([0.3, 0.25, 0.4, 0.5, 0.7, 0.9, 1.0, 1.1, 1.3,
+                                  round(r.uniform(0.3, 1.5), 3),
+                                  round(r.uniform(0.3, 1.5), 3)])
+                    if r.rand() < 0.04:
+                        st = 0.1
             else:
                 st = self.ch([0.2, 0.25, 0.5, 1.0])
                 lo = round(self.ch([-3.0, -2.5, -2.0, -1.0, 0.0]), 3)
@@ -380,6 +417,13 @@ class FGen:
                 k = int(r.randint(3, 7 if small else 11))
                 k = max(2, min(k, int((3.0 - lo) / st + 1e-9)))
                 mx = round(lo + k * st, 6)
+            if irregular and not periodic and r.rand() < 0.7:
+                rem = self.remainder(st)
+                if kind == "angle":
+                    rem = min(rem, max(0.0, 2.9 - mx))
+                if kind == "bond":
+                    rem = min(rem, max(0.0, 0.95 * half - mx))
+                mx = round(mx + round(rem, 4), 6)
             inter.append({"class": "bonded", "kind": kind,
                           "name": kind + str(ndone[kind]),
                           "min": lo, "max": mx, "step": st})
@@ -393,10 +437,14 @@ class FGen:
         out_choices = [1.0, 0.5, 0.25, 0.2]
         for it in inter:
             it["out_step"] = round(it["step"] * self.ch(out_choices), 6)
-            grid = it["min"] + it["step"] * np.arange(
-                int(round((it["max"] - it["min"]) / it["step"])) + 1)
+            # nodes min + i*step; the last node is moved to max, so a step
+            # that does not divide max - min gives a longer last interval
+            npts = int(math.floor((it["max"] - it["min"]) / it["step"] + 1e-8)) + 1
+            grid = it["min"] + it["step"] * np.arange(npts)
             grid[-1] = it["max"]
             it["grid"] = [float(g) for g in grid]
+            it["last_interval_ratio"] = float(
+                (grid[-1] - grid[-2]) / it["step"])
             scale = {"pair": 300.0, "bond": 2000.0, "angle": 80.0,
                      "dihedral": 20.0}[it.get("kind", "pair")] * r.uniform(0.2, 2)
             if it.get("periodic"):
@@ -444,7 +492,10 @@ class FGen:
             else:
                 per_frame = nmol * len(tup[it["name"]])
             need = max(need, int(math.ceil(2.2 * MIN_SAMPLES * nint / per_frame)))
-        c["fpb"] = int(min(40 if small else 12, max(need, int(r.randint(1, 5)))))
+        cap = 40 if (small or irregular) else 12
+        if irregular and any(len(it["grid"]) > 40 for it in inter):
+            cap = 70
+        c["fpb"] = int(min(cap, max(need, int(r.randint(1, 5)))))
         c["extra_frames"] = int(self.ch([0, 0, 0, 1])) if c["fpb"] > 1 else 0
         nframes = c["fpb"] if c["replicate"] else c["fpb"] * c["nblocks"]
         frames = []
@@ -1078,6 +1129,19 @@ def fmatch_worker(a):
             cnt("cases_first_frame_nframes")
         if c.get("wrap"):
             cnt("cases_coordinates_wrapped")
+        if family == "irregular-grid":
+            for it in c["interactions"]:
+                kd = "nonbonded" if it["class"] == "pair" else \
+                    ("periodic-" if it.get("periodic") else "") + it["kind"]
+                ratio = it["last_interval_ratio"]
+                cnt("irregular_grid/%s/%s" % (
+                    kd, "dividing" if abs(ratio - 1) < 1e-6 else "non-dividing"))
+                if ratio >= 1.5:
+                    cnt("irregular_grid/last_interval_ratio_ge_1.5")
+                elif ratio > 1 + 1e-6:
+                    cnt("irregular_grid/last_interval_ratio_1_to_1.5")
+                if len(it["grid"]) > 40:
+                    cnt("irregular_grid/grids_with_more_than_40_nodes")
         if family == "small-box":
             cnt("small_box/dihedrals", c["dih_total"])
             cnt("small_box/dihedrals_r13_or_r24_beyond_half_edge", c["dih_far"])
